@@ -79,6 +79,11 @@ type c04In struct {
 
 	Fails         int  `json:"fails,omitempty"`
 	FailAfterRead bool `json:"fail_after_read,omitempty"`
+	// FailRead[i] >= 0: the backend of failing attempt i reads that many bytes of the body, then fails
+	// (a backend that dies mid-body); -1 or absent: Fails/FailAfterRead decide
+	FailRead []int `json:"fail_read,omitempty"`
+	Salt     int   `json:"salt,omitempty"`      // retrybody: pattern of the body (BodyLen bytes)
+	RealWire bool  `json:"real_wire,omitempty"` // retrybody: real http.Transport against loopback backends that reset the connection
 	Retry         bool `json:"retry,omitempty"`
 }
 
@@ -289,6 +294,7 @@ type c04Sent struct {
 	Header  http.Header
 	Body    []byte
 	Read    bool
+	Asked   int64 // body bytes the backend asked for before failing; -1: it read to EOF
 	CL      int64
 	Chunked bool
 }
@@ -337,7 +343,16 @@ func (t *c04Transport) RoundTrip(r *http.Request) (*http.Response, error) {
 		}
 	}
 	failing := len(t.sent) < t.in.Fails
-	if !failing || t.in.FailAfterRead {
+	s.Asked = -1
+	if idx := len(t.sent); failing && idx < len(t.in.FailRead) && t.in.FailRead[idx] >= 0 {
+		// the backend dies mid-body: it reads k bytes, then the attempt fails
+		s.Read, s.Asked = true, int64(t.in.FailRead[idx])
+		if r.Body != nil {
+			buf := make([]byte, t.in.FailRead[idx])
+			n, _ := io.ReadFull(r.Body, buf)
+			s.Body = buf[:n]
+		}
+	} else if !failing || t.in.FailAfterRead {
 		s.Read = true
 		if r.Body != nil {
 			s.Body, _ = io.ReadAll(r.Body)
@@ -470,7 +485,7 @@ func c04RunProxy(in *c04In) Result {
 	var sents []string
 	for _, s := range tr.sent {
 		sent := cApp("Build_sent", c04S(s.Host), c04S(s.URLHost), c04Url(s.Path, s.RawPath, s.Query), c04Hdr(s.Header))
-		sents = append(sents, cApp("Build_sent_obs", cNat(s.Target), c04S(s.Method), sent, cBool(s.Read), c04S(string(s.Body)), cZ(s.CL), cBool(s.Chunked)))
+		sents = append(sents, cApp("Build_sent_obs", cNat(s.Target), c04S(s.Method), sent, cBool(s.Read), cZ(s.Asked), c04S(string(s.Body)), cZ(s.CL), cBool(s.Chunked)))
 	}
 	answered := len(tr.sent) > in.Fails
 	var cobs string
@@ -497,6 +512,15 @@ func c04RunProxy(in *c04In) Result {
 	} else if len(fixedCl) > 0 {
 		sig = "proxy:" + strings.Join(fixedCl, "+")
 	}
+	if sig == "proxy:plain" && c04DownRuleOnHop(in) {
+		sig = "proxy:response:downstream-rule-on-hop-header" // the rules run after the hop-by-hop removal
+	}
+	for _, k := range in.FailRead {
+		if k > 0 && k < len(in.Body) && len(tr.sent) >= 2 {
+			sig = "proxy:retry:backend-died-mid-body" // an earlier attempt read only part of the body
+			break
+		}
+	}
 	class := "proxy:"
 	switch {
 	case len(tr.sent) >= 2:
@@ -513,6 +537,28 @@ func c04RunProxy(in *c04In) Result {
 	}
 	nt := len(in.Hdr) > 0 && (len(in.Dirs) > 0 || hadHop)
 	return Result{Term: term, Obs: obs, Sig: sig, Direct: direct, Nontrivial: nt, Class: class}
+}
+
+// c04DownRuleOnHop: a header_downstream rule targets a header that is hop-by-hop for the scripted
+// response (hop-by-hop table, or named in one of its Connection lines), Connection included
+func c04DownRuleOnHop(in *c04In) bool {
+	hop := map[string]bool{}
+	for _, h := range c04RespHop {
+		hop[textproto.CanonicalMIMEHeaderKey(h)] = true
+	}
+	for _, l := range in.RHdr {
+		if textproto.CanonicalMIMEHeaderKey(l[0]) == "Connection" {
+			for _, tok := range strings.Split(l[1], ",") {
+				hop[textproto.CanonicalMIMEHeaderKey(strings.TrimSpace(tok))] = true
+			}
+		}
+	}
+	for _, d := range in.Dirs {
+		if (d.K == "down" || d.K == "downre") && hop[textproto.CanonicalMIMEHeaderKey(strings.TrimLeft(d.A, "+-"))] {
+			return true
+		}
+	}
+	return false
 }
 
 var c04HopNames = []string{"Connection", "Keep-Alive", "Proxy-Authenticate", "Proxy-Authorization", "Proxy-Connection", "Te", "Trailer", "Transfer-Encoding", "Upgrade", "Alt-Svc", "Alternate-Protocol"}
@@ -920,6 +966,8 @@ func c04Run(in0 interface{}) Result {
 		return c04RunConc(in)
 	case "relay":
 		return c04RunRelay(in)
+	case "retrybody":
+		return c04RunRetryBody(in)
 	}
 	panic("bad kind " + in.Kind)
 }
@@ -1115,6 +1163,25 @@ func c04GenProxy1(r *Rand) *c04In {
 	for i := range in.RHdr {
 		in.RHdr[i][0] = textproto.CanonicalMIMEHeaderKey(in.RHdr[i][0]) // what net/http's transport delivers
 	}
+	if r.Chance(12) {
+		// header_downstream on a header that is hop-by-hop for this response: by the table, or because
+		// the backend names it in a Connection line (the rules run AFTER the removal: they must win)
+		name := r.Pick([]string{"Alt-Svc", "Keep-Alive", "Proxy-Authenticate", "Alternate-Protocol", "Proxy-Connection", "X-B", "X-A", "Connection"})
+		if name == "X-A" || name == "X-B" {
+			in.RHdr = append(in.RHdr, [2]string{"Connection", name}, [2]string{name, "from-backend"})
+		} else if name != "Connection" && r.Chance(60) {
+			in.RHdr = append(in.RHdr, [2]string{name, "from-backend"})
+		}
+		switch {
+		case name == "Connection":
+			in.RHdr = append(in.RHdr, [2]string{"Connection", "X-Tok"}, [2]string{"X-Tok", "internal"})
+			in.Dirs = append(in.Dirs, c04Dir{K: "down", A: "-Connection", B: ""})
+		case r.Chance(30):
+			in.Dirs = append(in.Dirs, c04Dir{K: "down", A: "+" + name, B: r.Pick([]string{"lit", "h3=:443", "{host}"})})
+		default:
+			in.Dirs = append(in.Dirs, c04Dir{K: "down", A: name, B: r.Pick([]string{"lit", "h3=:443", "{host}"})})
+		}
+	}
 	in.RBody = r.Pick(c04RBodies)
 	if r.Chance(25) {
 		tk := []string{"X-T1", "X-T2", "X-U1"}
@@ -1136,6 +1203,16 @@ func c04GenProxy1(r *Rand) *c04In {
 		in.Fails = r.Range(1, 2)
 		in.Retry = r.Chance(80)
 		in.FailAfterRead = len(in.Targets) > 1 && r.Bool()
+		if r.Chance(55) {
+			// backends that die MID-BODY: each failing attempt reads k bytes of the body first
+			if in.Body == "" {
+				in.Method, in.Body, in.Chunked = r.Pick([]string{"POST", "PUT", "PATCH"}), r.Pick(c04Bodies[1:]), r.Chance(50)
+			}
+			n := len(in.Body)
+			for i := 0; i < in.Fails; i++ {
+				in.FailRead = append(in.FailRead, c04PickInt(r, []int{0, 1, n / 2, n - 1, n, n + 3, -1}))
+			}
+		}
 		if r.Chance(65) {
 			// configuration on which re-running the rewrite would be harmless: isolates body re-sending
 			for i := range in.Targets {
@@ -1215,9 +1292,9 @@ func c04PickInt(r *Rand, xs []int) int { return xs[r.Intn(len(xs))] }
 
 func c04Gen(r *Rand, tier string) []interface{} {
 	var out []interface{}
-	nProxy, nWire, nKey, nRepl, nMatch, nConc, nRelay := 2600, 90, 250, 150, 200, 40, 60
+	nProxy, nWire, nKey, nRepl, nMatch, nConc, nRelay, nRetry := 2600, 90, 250, 150, 200, 40, 60, 160
 	if tier == "thorough" {
-		nProxy, nWire, nKey, nRepl, nMatch, nConc, nRelay = 26000, 900, 2500, 1500, 2000, 400, 600
+		nProxy, nWire, nKey, nRepl, nMatch, nConc, nRelay, nRetry = 26000, 900, 2500, 1500, 2000, 400, 600, 1600
 	}
 	// helper functions: exhaustive small enumerations + random
 	for _, a := range []string{"", "/", "a", "/a", "a/", "/a/", "//", "/a//"} {
@@ -1263,6 +1340,9 @@ func c04Gen(r *Rand, tier string) []interface{} {
 	}
 	for i := 0; i < nConc; i++ {
 		heavy = append(heavy, c04GenConc(r, i))
+	}
+	for i := 0; i < nRetry; i++ {
+		heavy = append(heavy, c04GenRetryBody(r, i))
 	}
 	every := nProxy / (len(heavy) + 1)
 	for i := 0; i < nProxy; i++ {
